@@ -57,6 +57,32 @@ pub proof fn lemma_n(d: nat)
   lemma_pow2_adds(d, 1);
 }
 
+/// the ring intervals [ring_first(r), ring_first(r) + ring_len(r)) tile [0, 12 n^2) in ring order:
+/// together with to_ring's contract, increasing RING index == (ring from the north, rank by longitude) lexicographic order
+pub proof fn lemma_ring_intervals_tile(n: int, r: int)
+  requires n >= 1, 0 <= r <= 4 * n - 2,
+  ensures ring_first(n, 0) == 0,
+          ring_len(n, r) >= 4,
+          r < 4 * n - 2 ==> ring_first(n, r + 1) == ring_first(n, r) + ring_len(n, r),
+          r == 4 * n - 2 ==> ring_first(n, r) + ring_len(n, r) == 12 * n * n,
+{
+  assert(2 * (r + 1) * (r + 2) == 2 * r * (r + 1) + 4 * (r + 1)) by (nonlinear_arith);
+  assert(2 * n * (n + 1) + ((r + 1) - n) * (4 * n) == 2 * n * (n + 1) + (r - n) * (4 * n) + 4 * n) by (nonlinear_arith);
+  assert(r == n - 1 ==> 2 * r * (r + 1) + 4 * (r + 1) == 2 * n * (n + 1) + ((r + 1) - n) * (4 * n)) by (nonlinear_arith);
+  assert(r == 3 * n - 2 ==> 2 * n * (n + 1) + (r - n) * (4 * n) + 4 * n == 12 * n * n - 2 * (4 * n - 1 - (r + 1)) * (4 * n - (r + 1))) by (nonlinear_arith);
+  assert(12 * n * n - 2 * (4 * n - 1 - (r + 1)) * (4 * n - (r + 1)) == 12 * n * n - 2 * (4 * n - 1 - r) * (4 * n - r) + 4 * (4 * n - 1 - r)) by (nonlinear_arith);
+  assert(r == 4 * n - 2 ==> 12 * n * n - 2 * (4 * n - 1 - r) * (4 * n - r) + 4 * (4 * n - 1 - r) == 12 * n * n) by (nonlinear_arith);
+}
+/// rings are ordered: a cell of a more southern ring has a larger RING index than every cell of a more northern ring
+pub proof fn lemma_rings_ordered(n: int, r1: int, r2: int)
+  requires n >= 1, 0 <= r1 < r2 <= 4 * n - 2,
+  ensures ring_first(n, r1) + ring_len(n, r1) <= ring_first(n, r2),
+  decreases r2 - r1,
+{
+  lemma_ring_intervals_tile(n, r1);
+  if r1 + 1 < r2 { lemma_rings_ordered(n, r1 + 1, r2); lemma_ring_intervals_tile(n, r1 + 1); }
+}
+
 impl Layer {
   // ASSUMED contract (the LUT / BMI codec is verified by Kani, properties C04/C18: in-range parts per z-order class)
   #[verifier::external_body]
@@ -117,7 +143,14 @@ FUNCTIONS = [
                    "ensures tri4(r as int) <= hash as int, (hash as int) < tri4(r as int + 1), r < 0x4000_0001u64,"],
          rewrites=[dict(old="(((1 + (hash << 1)) as f64).sqrt() as u64 - 1) >> 1", new="sqrt_estimate(hash)",
                         why="float sqrt estimate replaced by an uninterpreted function with the ASSUMED accuracy 'exact index within +-1'; Verus has no float reasoning")],
-         ghost=[dict(before="i_ring", lines=[
+         ghost=[dict(before="if triangular_number_x4(i_ring) > hash {", prefix=True, lines=[
+             "proof {",
+             "  let x = i_ring as int;",
+             "  assert(x == 0 ==> tri4(x) == 0) by (nonlinear_arith);",
+             "  assert(tri4(x + 1) == tri4(x) + 4 * (x + 1) && tri4(x + 2) == tri4(x + 1) + 4 * (x + 2)) by (nonlinear_arith);",
+             "  assert(x >= 1 ==> tri4(x) == tri4(x - 1) + 4 * x) by (nonlinear_arith);",
+             "}"]),
+                dict(before="i_ring", lines=[
              "proof {",
              "  let x = i_ring as int;",
              "  assert(tri4(x + 1) == tri4(x) + 4 * (x + 1)) by (nonlinear_arith);",
